@@ -516,9 +516,11 @@ static void run_cfg(vmc::Ctx& ctx, const Cfg& c)
           if (rethreshold)
             {
               // the resumed run was asked to modify its start image ('enforce initial positivity'): it does not resume from the saved iterate, equality is not demanded
-              ctx.count(rel <= 1e-4 ? "restart_images_equal_within_1e-4_after_rethreshold" : "restart_images_deviating_more_than_1e-4_after_rethreshold");
-              if (rel > 1e-4)
+              ctx.count(rel <= 1e-4 ? "restart_images_equal_within_1e-4_after_rethreshold"
+                                    : nonident_nonzero ? "restart_images_deviating_more_than_1e-4_after_rethreshold_and_nonidentifiable_voxels_nonzero" : "restart_images_deviating_more_than_1e-4_after_rethreshold");
+              if (rel > 1e-4 && !nonident_nonzero)
                 {
+                  ctx.maxi("max_deviation_after_rethreshold_ppm_of_max", (long long)(rel * 1e6));
                   static bool once = false;
                   if (!once) { once = true; ctx.observe("resumed run with 'enforce initial positivity' from an iterate with exact zeros deviates from the uninterrupted run by " + vmc::str(rel) + " of the maximum (not a violation: the option changes the start image), e.g. " + kase + ";k=" + vmc::str(k)); }
                 }
